@@ -9,6 +9,7 @@ import (
 	"encoding/json"
 	"errors"
 	"fmt"
+	"io"
 	"os"
 	"runtime"
 	"sync"
@@ -500,6 +501,7 @@ type SeqCase struct {
 	After    int    `json:"after"` // bytes written into it after the close
 	Op       string `json:"op"`    // operation attempted after the close
 	Size     int    `json:"size"`
+	Via      string `json:"via,omitempty"` // how the Close frame is sent: "" = WriteControl, WriteMessage, Prepared, NextWriter
 }
 
 func runSeq(c SeqCase) error {
@@ -516,6 +518,7 @@ func runSeq(c SeqCase) error {
 	if err != nil {
 		return err
 	}
+	skipHS := out.Len()
 	var w interface {
 		Write([]byte) (int, error)
 		Close() error
@@ -528,8 +531,32 @@ func runSeq(c SeqCase) error {
 			return fmt.Errorf("write before the close: %v", err)
 		}
 	}
-	if err = conn.WriteControl(websocket.CloseMessage, websocket.FormatCloseMessage(1001, "bye"), time.Time{}); err != nil {
-		return fmt.Errorf("WriteControl(Close): %v", err)
+	closeBody := websocket.FormatCloseMessage(1001, "bye")
+	switch c.Via {
+	case "WriteMessage":
+		err = conn.WriteMessage(websocket.CloseMessage, closeBody)
+	case "Prepared":
+		var pm *websocket.PreparedMessage
+		if pm, err = websocket.NewPreparedMessage(websocket.CloseMessage, closeBody); err == nil {
+			err = conn.WritePreparedMessage(pm)
+		}
+	case "NextWriter":
+		var cw io.WriteCloser
+		if cw, err = conn.NextWriter(websocket.CloseMessage); err == nil {
+			if _, err = cw.Write(closeBody); err == nil {
+				err = cw.Close()
+			}
+		}
+	default:
+		err = conn.WriteControl(websocket.CloseMessage, closeBody, time.Time{})
+	}
+	if err != nil {
+		return fmt.Errorf("sending the Close frame (%s): %v", c.Via, err)
+	}
+	if c.Open >= 0 {
+		// an unfinished message precedes the Close: the stream is judged by the histories check
+	} else if fr, perr := wsref.ParseStrict(out.Bytes(skipHS), wsref.StrictOpts{FromClient: !c.Server}); perr != nil || len(fr) == 0 || fr[len(fr)-1].Op != 8 {
+		return fmt.Errorf("the Close sent through %q is not on the wire as a close frame (err %v)", c.Via, perr)
 	}
 	mark := out.Len()
 	if w != nil {
@@ -580,7 +607,7 @@ func runSeq(c SeqCase) error {
 
 func TestAfterClose(t *testing.T) {
 	rec := ev.New(prop, "after-close", "deterministic: both roles x write buffer {16,256} x open message writer {none, 0, 5, buf+5 bytes buffered} x bytes written after the close {0,3,2buf} x "+
-		"operation {WriteMessage, NextWriter, WriteJSON, Prepared, Ping, Pong, Close, WriteMessage(Close)} x size {0,1,3buf}: every one returns ErrCloseSent and no byte follows the Close frame; all non-trivial")
+		"operation {WriteMessage, NextWriter, WriteJSON, Prepared, Ping, Pong, Close, WriteMessage(Close)} x size {0,1,3buf} x Close sent through {WriteControl, WriteMessage, prepared message, NextWriter}: every one returns ErrCloseSent and no byte follows the Close frame; all non-trivial")
 	rec.Exhaustive()
 	for _, server := range []bool{true, false} {
 		for _, wb := range []int{16, 256} {
@@ -591,12 +618,180 @@ func TestAfterClose(t *testing.T) {
 					}
 					for _, op := range []string{"WriteMessage", "NextWriter", "WriteJSON", "Prepared", "Ping", "Pong", "Close", "WriteMessageClose"} {
 						for _, size := range []int{0, 1, 3 * wb} {
-							c := SeqCase{server, wb, open, after, op, size}
-							err := ev.Try(func() error { return runSeq(c) })
-							rec.Case(true, ev.Hash(c), nil, func() any { return c })
-							if err != nil {
-								fail(t, "after-close", c, err)
+							vias := []string{""}
+							if open < 0 {
+								vias = []string{"", "WriteMessage", "Prepared", "NextWriter"}
 							}
+							for _, via := range vias {
+								c := SeqCase{server, wb, open, after, op, size, via}
+								err := ev.Try(func() error { return runSeq(c) })
+								rec.Case(true, ev.Hash(c), nil, func() any { return c })
+								if err != nil {
+									fail(t, "after-close", c, err)
+								}
+							}
+						}
+					}
+				}
+			}
+		}
+	}
+}
+
+// ---------------------------------------------------------------- a control sender gives up waiting for the writer
+
+// LCase: the data writer is held inside a transport write (slow peer); Timeouts control frames
+// with a short deadline give up waiting for it; then one more control frame (Op) is sent without
+// a deadline and must wait for the data frame to be complete.
+type LCase struct {
+	Server   bool `json:"server"`
+	WriteBuf int  `json:"write_buf"`
+	Size     int  `json:"size"`
+	Timeouts int  `json:"timeouts"`
+	Op       int  `json:"op"` // 9 ping, 10 pong, 8 close
+}
+
+type holdWriter struct {
+	mu      sync.Mutex
+	calls   int
+	holdAt  int
+	entered chan struct{}
+	resume  chan struct{}
+	inside  int32
+	overlap int32
+	log     bytes.Buffer
+}
+
+func (h *holdWriter) Write(p []byte) (int, error) {
+	if atomic.AddInt32(&h.inside, 1) != 1 {
+		atomic.StoreInt32(&h.overlap, 1)
+	}
+	defer atomic.AddInt32(&h.inside, -1)
+	h.mu.Lock()
+	idx := h.calls
+	h.calls++
+	h.mu.Unlock()
+	if idx == h.holdAt {
+		close(h.entered)
+		<-h.resume
+	}
+	h.mu.Lock()
+	h.log.Write(p)
+	h.mu.Unlock()
+	return len(p), nil
+}
+
+func runLock(c LCase) error {
+	h := &holdWriter{entered: make(chan struct{}), resume: make(chan struct{})}
+	out := &wsx.Sink{}
+	cfg := wsx.Config{ReadBuf: 256, WriteBuf: c.WriteBuf}
+	var conn *websocket.Conn
+	var nc *wsx.Conn
+	var err error
+	if c.Server {
+		conn, nc, _, err = wsx.NewServer(cfg, false, bytes.NewReader(nil), out)
+	} else {
+		conn, nc, _, err = wsx.NewClient(cfg, false, bytes.NewReader(nil), out)
+	}
+	if err != nil {
+		return fmt.Errorf("handshake: %v", err)
+	}
+	nc.W = h.Write
+	payload := rtmpx.Fill(c.Size, 0x77)
+	var wg sync.WaitGroup
+	var dataErr, ctlErr error
+	wg.Add(1)
+	go func() {
+		defer wg.Done()
+		dataErr = conn.WriteMessage(websocket.BinaryMessage, payload)
+	}()
+	select {
+	case <-h.entered:
+	case <-time.After(20 * time.Second):
+		return fmt.Errorf("harness: the data writer never reached the transport")
+	}
+	// the writer is inside the transport and holds the connection's write lock
+	for i := 0; i < c.Timeouts; i++ {
+		e := conn.WriteControl(websocket.PingMessage, []byte("gives up"), time.Now().Add(3*time.Millisecond))
+		if e == nil {
+			close(h.resume)
+			return fmt.Errorf("a control frame with a 3ms deadline was written while the data writer held the connection inside a transport write")
+		}
+	}
+	wg.Add(1)
+	go func() {
+		defer wg.Done()
+		body := []byte("waits")
+		if c.Op == websocket.CloseMessage {
+			body = websocket.FormatCloseMessage(1000, "")
+		}
+		ctlErr = conn.WriteControl(c.Op, body, time.Time{})
+	}()
+	time.Sleep(15 * time.Millisecond) // room for a sender that does not wait (it has to, until the frame is complete)
+	close(h.resume)
+	if !waitTimeout(&wg, 20*time.Second) {
+		return fmt.Errorf("stall: the data writer or the waiting control sender did not return within 20s after the transport write completed")
+	}
+	if ctlErr != nil || (dataErr != nil && !(c.Op == websocket.CloseMessage && dataErr == websocket.ErrCloseSent)) {
+		return fmt.Errorf("data write returned %v, the waiting control frame %v", dataErr, ctlErr)
+	}
+	if atomic.LoadInt32(&h.overlap) == 1 {
+		return fmt.Errorf("two goroutines were inside the transport's Write at the same time")
+	}
+	h.mu.Lock()
+	wire := append([]byte(nil), h.log.Bytes()...)
+	h.mu.Unlock()
+	// whole frames only: the control frame may go between two frames of the message, never inside one
+	var data []byte
+	ctl, fin, closed := 0, false, false
+	for off := 0; off < len(wire); {
+		f, n, minimal, e := wsref.ParseOne(wire[off:])
+		if e != nil || !minimal || f.RSV != 0 || f.Masked == c.Server {
+			return fmt.Errorf("wire is not a sequence of whole frames at offset %d of %d (a control frame inside a data frame?): %v", off, len(wire), e)
+		}
+		if closed {
+			return fmt.Errorf("a frame (op %d) follows the Close frame", f.Op)
+		}
+		switch {
+		case f.Op == 2 && len(data) == 0 && !fin, f.Op == 0 && !fin:
+			data = append(data, f.Payload...)
+			fin = f.Fin
+		case int(f.Op) == c.Op && f.Fin:
+			ctl++
+			closed = f.Op == 8
+		default:
+			return fmt.Errorf("unexpected frame on the wire at offset %d: op %d fin %v with %d bytes", off, f.Op, f.Fin, len(f.Payload))
+		}
+		off += n
+	}
+	if ctl != 1 {
+		return fmt.Errorf("%d control frames on the wire, want the one that waited (those that gave up are not sent)", ctl)
+	}
+	if dataErr == nil && !(fin && bytes.Equal(data, payload)) {
+		return fmt.Errorf("the data write returned nil, the wire holds %d of its %d bytes (complete: %v)", len(data), len(payload), fin)
+	}
+	if !bytes.HasPrefix(payload, data) {
+		return fmt.Errorf("the data frames on the wire do not carry the message written")
+	}
+	return nil
+}
+
+func TestLockTimeout(t *testing.T) {
+	rec := ev.New(prop, "lock-wait-timeout", "deterministic schedule owned by the harness: the data writer is held inside its first transport write; 1-3 control frames with a 3 ms deadline give up waiting; "+
+		"one more control frame {ping, pong, close} without deadline must wait; both roles x write buffer {16, 256} x message size {buf/2, buf+1, 3buf}; oracle: no overlap in the transport, wire = whole frames holding the intact data message and that one control frame, "+
+		"nobody hangs; all non-trivial")
+	rec.Exhaustive()
+	for _, server := range []bool{true, false} {
+		for _, wb := range []int{16, 256} {
+			for _, size := range []int{wb / 2, wb + 1, 3 * wb} {
+				for timeouts := 1; timeouts <= 3; timeouts++ {
+					for _, op := range []int{9, 10, 8} {
+						c := LCase{server, wb, size, timeouts, op}
+						ev.Current(prop, "lock-wait-timeout", c)
+						err := ev.Try(func() error { return runLock(c) })
+						rec.Case(true, ev.Hash(c), nil, func() any { return c })
+						if err != nil {
+							fail(t, "lock-wait-timeout", c, err)
 						}
 					}
 				}
@@ -621,6 +816,13 @@ func replayers() map[string]ev.Replayer {
 				return err
 			}
 			return runSeq(c)
+		},
+		"lock-wait-timeout": func(raw json.RawMessage) error {
+			var c LCase
+			if err := json.Unmarshal(raw, &c); err != nil {
+				return err
+			}
+			return runLock(c)
 		}}
 }
 
